@@ -122,6 +122,7 @@ pub fn drive(name: &str, out: &str, args: &[String]) {
         "admin" => admin_driver(out, seed, arg(args, 1, 100)),
         "curve" => curve_driver(out, seed, arg(args, 1, 1000)),
         "integ" => integ_driver(out, seed, arg(args, 1, 10000)),
+        "caps" => caps_driver(out, seed, arg(args, 1, 200)),
         _ => {
             eprintln!("unknown driver {}", name);
             std::process::exit(2);
@@ -753,6 +754,19 @@ fn admin_driver(out: &str, seed: u64, n: u64) {
                     r.act(a);
                 }
             }
+            1 if rng.gen_bool(0.4) => {
+                // ---- e-mode: entries validated against the source bank's liability weights, then cloned
+                r.act(json!({"op":"configure_bank","bank":"B1","cfg":{"lw_init":"1.5","lw_maint":"1.25"}}));
+                let (wi, wm) = *pick(&mut rng, &[("1.0", "1.1"), ("0.9", "0.95"), ("1.2", "1.2"), ("0.5", "0.6")]);
+                r.act(json!({"op":"configure_emode","bank":"B1","tag":7,"entries":[{"tag":5,"init":wi,"maint":wm},{"tag":9,"init":"0.1","maint":"0.2"}]}));
+                let dst = *pick(&mut rng, &["B2", "B3"]);
+                let (li, lm) = *pick(&mut rng, &[("1", "1"), ("1.05", "1.01"), ("2", "1.5")]);
+                r.act(json!({"op":"configure_bank","bank":dst,"cfg":{"lw_init":li,"lw_maint":lm}}));
+                r.act(json!({"op":"clone_emode","from":"B1","to":dst,"signer": *pick(&mut rng, &["admin", "emodeadmin"])}));
+                r.act(json!({"op":"configure_emode","bank":dst,"tag":7,"entries":[{"tag":5,"init":wi,"maint":wm}]}));
+                r.act(json!({"op":"config_group","group":"G1","emode_max_init":"3","emode_max_maint":"4"}));
+                r.act(json!({"op":"configure_bank","bank":"B1","cfg":{"lw_init":"1.21","lw_maint":"1.2"}}));
+            }
             1 => {
                 // ---- frozen settings
                 let b = *pick(&mut rng, &["B1", "B2", "B3"]);
@@ -986,6 +1000,56 @@ fn integ_driver(out: &str, seed: u64, n: u64) {
             _ => json!({"op":"integ","fn":"ty.adj_sup_i64","args":[b((ru64(&mut rng) >> 2) as i128), b(rfx(&mut rng) >> 10), b(rfx(&mut rng) >> 10)]}),
         };
         r.act(a);
+    }
+    r.finish();
+}
+
+// ------------------------------------------------------------------------------------------------
+// caps driver (C17): limits x share values x amounts at the cap, pending accrual before up-to-limit deposits
+// ------------------------------------------------------------------------------------------------
+fn caps_driver(out: &str, seed: u64, n: u64) {
+    let mut rng = StdRng::seed_from_u64(seed);
+    let mut r = Recorder::new(&format!("{}/caps.trace", out), load_setup("ledger"));
+    for _ in 0..n {
+        r.begin(&[]);
+        let bank = *pick(&mut rng, &["B1", "B2"]);
+        let scale: u64 = if bank == "B1" { 1 } else { 1000 };
+        // liquidity, a borrower (so that interest accrues), then limits around the current totals
+        let dep: u64 = *pick(&mut rng, &[1_000_000u64, 900_000, 123_456_789]) * scale;
+        r.act(json!({"op":"deposit","acct":"A4","bank":bank,"amount":dep}));
+        r.act(json!({"op":"deposit","acct":"A3","bank": if bank == "B1" {"B2"} else {"B1"},"amount": 50_000_000_000u64}));
+        let bor = dep / 10 * *pick(&mut rng, &[0u64, 5, 8, 9]);
+        if bor > 0 {
+            r.act(json!({"op":"borrow","acct":"A3","bank":bank,"amount":bor}));
+        }
+        let dl: u64 = match rng.gen_range(0..5) { 0 => 0, 1 => 1, 2 => dep + rng.gen_range(0..3), 3 => dep + dep / 10, _ => u64::MAX };
+        let bl: u64 = match rng.gen_range(0..4) { 0 => 0, 1 => bor + rng.gen_range(0..3), 2 => bor + dep / 20, _ => u64::MAX };
+        r.act(json!({"op":"configure_limits","bank":bank,"deposit_limit":dl.to_string(),"borrow_limit":bl.to_string()}));
+        for _ in 0..rng.gen_range(3..10) {
+            let c = rng.gen_range(0..10);
+            let a = match c {
+                0 | 1 => json!({"op":"tick","dt": *pick(&mut rng, &[1i64, 3600, 86400, 2_592_000, 31_536_000])}),
+                2 | 3 | 4 => {
+                    // amounts at the remaining capacity +-1
+                    let b = r.ex.bank(bank).unwrap();
+                    let tot = (fixed::types::I80F48::from(b.total_asset_shares) * fixed::types::I80F48::from(b.asset_share_value)).to_num::<u64>();
+                    let room = dl.saturating_sub(tot);
+                    let amt = match rng.gen_range(0..5) { 0 => room, 1 => room.saturating_sub(1), 2 => room.saturating_sub(2), 3 => room.saturating_add(1), _ => rng.gen_range(0..room.max(1).saturating_mul(2).saturating_add(2)) };
+                    json!({"op":"deposit","acct":"A1","bank":bank,"amount":amt,"up_to_limit": rng.gen_bool(0.5)})
+                }
+                5 => json!({"op":"deposit","acct":"A1","bank":bank,"amount": u64::MAX.to_string(),"up_to_limit":true}),
+                6 | 7 => {
+                    let b = r.ex.bank(bank).unwrap();
+                    let tot = (fixed::types::I80F48::from(b.total_liability_shares) * fixed::types::I80F48::from(b.liability_share_value)).to_num::<u64>();
+                    let room = bl.saturating_sub(tot);
+                    let amt = match rng.gen_range(0..4) { 0 => room, 1 => room.saturating_sub(1), 2 => room.saturating_add(1), _ => rng.gen_range(0..room.max(1).saturating_mul(2).saturating_add(2)) };
+                    json!({"op":"borrow","acct":"A3","bank":bank,"amount":amt})
+                }
+                8 => json!({"op":"withdraw","acct":"A4","bank":bank,"amount": rng.gen_range(0..dep)}),
+                _ => json!({"op":"accrue","bank":bank}),
+            };
+            r.act(a);
+        }
     }
     r.finish();
 }
